@@ -29,7 +29,7 @@ Your task: produce {n} DIFFERENT, independent, realistic source changes ("mutant
   (b) the existing test suite still passes unchanged (all tests),
   (c) the breakage needs something specific to manifest - a particular kind of input, an unusual value, a multi-step sequence, a particular interleaving, a failure at a particular point, or two cooperating sites that each look fine alone - NOT something that ordinary use would expose at once. Think of the kind of subtle regression a real refactoring, optimisation or "cleanup" commit could introduce. Prefer changes to different functions/mechanisms for the different mutants.
 Each mutant should be small (a few lines), look plausible, and not be a no-op.""" + ("" if ROUND == "1" else """
-Additional guidance for this round: spread the mutants over DIFFERENT source files / mechanisms that the property depends on (read the whole library first to find all of them, including helpers that several features share); at least one mutant must consist of two cooperating edits at different sites that each look harmless alone; at least one must only misbehave on a failure/empty/boundary path (an error in the middle, an empty collection, NULL, the last element, a second call on the same object); avoid the most obvious single-operator flips.""" + ("" if ROUND not in ("4", "5") else """ This is a late round: earlier rounds already produced the central mutations (changed operators, removed guards and dropped calls in the main evaluation functions). Look instead at (i) the property as it holds in COMBINATION with another feature - inside a subquery or EXISTS, in a CTE body, in a union branch, on an aliased table, under GROUP BY, in a PARALLEL or hash join, with a multi-dimensional source, under each query option (Wrapped, PostgresEscapingDialect, IdomaticArrays, WithVars, error handlers); (ii) small shared helpers and conversion functions that the feature relies on indirectly; (iii) state that survives one evaluation (caches, memoised results, a Query executed twice, a prepared command used twice); (iv) "optimisations" that add a fast path, a cache or a pre-sized buffer, and "clean-ups" that merge two similar functions or move a check from a callee to its callers and miss one caller.""")) + f""" Do not add build tags, do not touch test files, go.mod, or anything outside the library's .go files.
+Additional guidance for this round: spread the mutants over DIFFERENT source files / mechanisms that the property depends on (read the whole library first to find all of them, including helpers that several features share); at least one mutant must consist of two cooperating edits at different sites that each look harmless alone; at least one must only misbehave on a failure/empty/boundary path (an error in the middle, an empty collection, NULL, the last element, a second call on the same object); avoid the most obvious single-operator flips.""" + ("" if ROUND not in ("4", "5") else """ This is a late round: earlier rounds already produced the central mutations (changed operators, removed guards and dropped calls in the main evaluation functions). Look instead at (i) the property as it holds in COMBINATION with another feature - inside a subquery or EXISTS, in a CTE body, in a union branch, on an aliased table, under GROUP BY, in a PARALLEL or hash join, with a multi-dimensional source, under each query option (Wrapped, PostgresEscapingDialect, IdomaticArrays, WithVars, error handlers); (ii) small shared helpers and conversion functions that the feature relies on indirectly; (iii) state that survives one evaluation (caches, memoised results, a Query executed twice, a prepared command used twice); (iv) "optimisations" that add a fast path, a cache or a pre-sized buffer, and "clean-ups" that merge two similar functions or move a check from a callee to its callers and miss one caller.""") + ("" if ROUND != "7" else """ This is a very late round: six earlier rounds already produced changed operators, removed guards, dropped calls, caches keyed too coarsely, fast paths, merged helpers, state kept across executions and checks moved to the wrong caller. Do NOT repeat those. Read the whole library, then look for changes of these kinds instead: (i) a change of DATA REPRESENTATION that is lossy or ambiguous only for unusual values - the type of a field or local (int vs int64 vs float64, string vs []byte vs []rune), a key or fingerprint format, a separator, a hash or truncated form standing in for the value, a numeric text form; (ii) LIFETIME and ALIASING - a buffer, slice, map or struct reused across iterations, rows, calls or goroutines (pre-allocated scratch, sync.Pool, append onto a shared backing array, a sub-slice handed out and later overwritten, a shallow copy where a deep one is needed or the reverse); (iii) the ORDER of two steps that are both kept (unlock before the last read, publish before complete, wait after read, defer order, evaluate right before left, check after use); (iv) a LIBRARY SUBSTITUTION that is almost equivalent (sort.Slice vs SliceStable, strings.EqualFold/ToLower vs exact, strconv.Atoi/ParseInt/ParseFloat flavours and bit sizes, fmt verbs, regexp flags, strings.Fields vs Split, utf8 vs byte indexing, maps.Clone vs manual copy, slices.Compact, math.Round vs truncation); (v) ERROR PLUMBING - errors collected and reported later, first vs last error, errors.Join, an error converted to a value (NULL, false, empty) on one path, a panic/recover pair whose scope moved, a sentinel compared by text; (vi) CONCURRENCY MECHANICS - a lock scope narrowed or split in two, RLock where a write can happen, a double-checked flag, an atomic counter instead of a WaitGroup, a goroutine started earlier/later relative to Add/Wait, a channel buffer size, a results slice indexed by a captured loop variable; (vii) a BOUNDARY in index arithmetic or a loop (off-by-one only at the first/last element, an empty or single-element collection, a negative or zero count, len vs cap, rune vs byte length).""")) + f""" Do not add build tags, do not touch test files, go.mod, or anything outside the library's .go files.
 
 For each mutant k = 1..{n} create the directory {wt}/MUTANTS/m<k>/ containing:
   - patch.diff : the change as a unified diff produced by `git diff` against the worktree's HEAD (must apply with `git apply` on a clean checkout of HEAD)
